@@ -1,5 +1,5 @@
 // C12 replay helper: one input through the same judgement as the explorers.
-// usage: c12_single prime N        (is_prime + find_prime_factor against the 12-base oracle)
+// usage: c12_single prime N [N...] (is_prime + find_prime_factor against the 12-base oracle)
 //        c12_single square N       (is_perfect_square against exact isqrt; informational)
 #pragma once
 #include "c12_common.hh"
@@ -11,7 +11,8 @@ inline int single_main(int argc, char **argv) {
     const u64 n = std::strtoull(argv[2], nullptr, 10);
     Tally t;
     if (mode == "prime") {
-        check_n(n, "replay", t, -1, true);
+        for (int i = 2; i < argc; ++i)
+            check_n(std::strtoull(argv[i], nullptr, 10), "replay", t, -1, true);
         print_tally("replay", t);
         return 0;
     }
